@@ -232,7 +232,11 @@ Record PInv (s : pst) : Prop := {
   p_sum : list_sum (arr s) + list_sum (loc s) = pexec s;
   p_tot : pexec s <= total s;
   p_shown : shown s <= list_sum (arr s);
-  p_len : List.length (arr s) = List.length (loc s)
+  p_len : List.length (arr s) = List.length (loc s);
+  p_ts : forall t, tshown s = Some t -> t = total s;            (* the displayed total, once known, is the true one *)
+  p_upd : upd s = true -> tshown s = None;
+  (* whenever the bar shows its (known, positive) total and nothing new is announced, completion has been signalled *)
+  p_full : forall t, tshown s = Some t -> shown s = t -> upd s = false -> 0 < t -> complete s = true
 }.
 
 Lemma tcpb_spec force due l x : tcpb force due l x =
@@ -246,76 +250,103 @@ Proof.
   - destruct i as [|i]; [reflexivity|]. specialize (IH i). unfold Apply.upd in *. simpl. rewrite IH. reflexivity.
 Qed.
 
-Lemma pstep_PInv s a s' : PInv s -> pstep s a = Some s' -> PInv s' /\ shown s <= shown s' /\ total s' = total s.
+Ltac pfields := cbn [arr loc shown total tshown upd complete pexec].
+
+Lemma pstep_PInv s a s' : PInv s -> pstep s a = Some s' ->
+  PInv s' /\ shown s <= shown s' /\ total s' = total s /\ (complete s = true -> complete s' = true).
 Proof.
-  intros [Hs Ht Hsh Hl] Hp. destruct a as [w due|w|]; cbn [pstep] in Hp.
+  intros [Hs Ht Hsh Hl Hts Hu Hfull] Hp. destruct a as [w due|w| |]; cbn [pstep] in Hp.
   - destruct (Nat.ltb_spec (pexec s) (total s)) as [Hlt|]; [|discriminate].
     destruct (nth_error (loc s) w) as [l|] eqn:Hnl; [|discriminate].
     destruct (nth_error (arr s) w) as [x|] eqn:Hna; [|discriminate].
     rewrite tcpb_spec in Hp. cbn [orb] in Hp.
     pose proof (lsum_upd _ _ _ (if due then x + S l else x) Hna) as Ha.
     pose proof (lsum_upd _ _ _ (if due then 0 else S l) Hnl) as Hb.
-    destruct due; inversion Hp; subst s'; clear Hp; cbn [arr loc shown total pexec];
-      (split; [constructor; cbn [arr loc shown total pexec]; rewrite ?aupd_len; try lia|split; [lia|reflexivity]]).
+    destruct due; inversion Hp; subst s'; clear Hp; pfields;
+      (split; [constructor; pfields; rewrite ?aupd_len; try lia; assumption|split; [lia|split; [reflexivity|auto]]]).
   - destruct (nth_error (loc s) w) as [l|] eqn:Hnl; [|discriminate].
     destruct (nth_error (arr s) w) as [x|] eqn:Hna; [|discriminate].
     rewrite tcpb_spec in Hp. cbn [orb] in Hp.
     pose proof (lsum_upd _ _ _ (x + l) Hna) as Ha.
     pose proof (lsum_upd _ _ _ 0 Hnl) as Hb.
-    inversion Hp; subst s'; clear Hp; cbn [arr loc shown total pexec].
-    split; [constructor; cbn [arr loc shown total pexec]; rewrite ?aupd_len; try lia|split; [lia|reflexivity]].
+    inversion Hp; subst s'; clear Hp; pfields.
+    split; [constructor; pfields; rewrite ?aupd_len; try lia; assumption|split; [lia|split; [reflexivity|auto]]].
+  - destruct (tshown s) eqn:Et; [discriminate|]. destruct (upd s) eqn:Eu; [discriminate|]. inversion Hp; subst s'; clear Hp; pfields.
+    split; [|split; [lia|split; [reflexivity|auto]]].
+    constructor; pfields; try assumption; try lia. intros _. reflexivity.
   - rewrite handler_spec in Hp.
-    destruct ((0 <? list_sum (arr s)) && (list_sum (arr s) =? shown s)); inversion Hp; subst s'; clear Hp.
-    + split; [constructor; assumption|split; [lia|reflexivity]].
-    + cbn [arr loc shown total pexec]. split; [constructor; cbn [arr loc shown total pexec]; try assumption; lia|split; [lia|reflexivity]].
+    assert (Hts' : forall t, (if upd s then Some (total s) else tshown s) = Some t -> t = total s).
+    { intros t. destruct (upd s); [intros E; inversion E; reflexivity|apply Hts]. }
+    destruct ((0 <? list_sum (arr s)) && (list_sum (arr s) =? shown s) && negb (upd s)) eqn:Ec; inversion Hp; subst s'; clear Hp; pfields.
+    + apply andb_true_iff in Ec. destruct Ec as [Ec Eu]. apply negb_true_iff in Eu. rewrite Eu in *.
+      split; [constructor; pfields; try assumption; try discriminate; intros t H1 H2 _ H3; apply (Hfull t H1 H2 Eu H3)
+             |split; [lia|split; [reflexivity|auto]]].
+    + split; [constructor; pfields; try assumption; try lia; try discriminate|split; [lia|split; [reflexivity|]]].
+      * intros t H1 H2 _ H3. rewrite H1. cbn [opt_eqb]. rewrite H2, Nat.eqb_refl. apply orb_true_r.
+      * intros Hc. rewrite Hc. reflexivity.
 Qed.
 
-Lemma pinit_PInv n_jobs n : PInv (pinit n_jobs n).
+Lemma pinit_PInv n_jobs n sized : PInv (pinit n_jobs n sized).
 Proof.
   assert (H : list_sum (repeat 0 n_jobs) = 0) by (induction n_jobs; cbn; auto).
-  constructor; unfold pinit; cbn [arr loc shown total pexec]; rewrite ?H; try lia; reflexivity.
+  constructor; unfold pinit; pfields; rewrite ?H; try lia; try reflexivity; try discriminate.
+  all: try (destruct sized; intros t E; inversion E; reflexivity).
+  all: try (intros t H1 H2 _ H3; lia).
 Qed.
 
-Lemma prun_PInv : forall l s, PInv s -> PInv (prun s l) /\ shown s <= shown (prun s l) /\ total (prun s l) = total s.
+Lemma prun_PInv : forall l s, PInv s ->
+  PInv (prun s l) /\ shown s <= shown (prun s l) /\ total (prun s l) = total s /\ (complete s = true -> complete (prun s l) = true).
 Proof.
   induction l as [|a r IH]; intros s HI; cbn [prun]; [auto|].
   destruct (pstep s a) as [s'|] eqn:Hp; [|apply IH; assumption].
-  destruct (pstep_PInv _ _ _ HI Hp) as (HI' & Hm & Ht). destruct (IH _ HI') as (H1 & H2 & H3).
-  split; [assumption|split; [lia|congruence]].
+  destruct (pstep_PInv _ _ _ HI Hp) as (HI' & Hm & Ht & Hc). destruct (IH _ HI') as (H1 & H2 & H3 & H4).
+  split; [assumption|split; [lia|split; [congruence|auto]]].
 Qed.
 
 (* C19: the displayed count never decreases (between any two moments of any schedule), never exceeds
    the total nor the number of items really processed *)
-Theorem bar_monotone n_jobs n l1 l2 :
-  shown (prun (pinit n_jobs n) l1) <= shown (prun (pinit n_jobs n) (l1 ++ l2)).
+Theorem bar_monotone n_jobs n sized l1 l2 :
+  shown (prun (pinit n_jobs n sized) l1) <= shown (prun (pinit n_jobs n sized) (l1 ++ l2)).
 Proof.
   assert (E : forall l1 l2 s, prun s (l1 ++ l2) = prun (prun s l1) l2).
   { clear. induction l1 as [|a r IH]; intros l2 s; cbn [app prun]; [reflexivity|]. destruct (pstep s a); apply IH. }
-  rewrite E. destruct (prun_PInv l1 _ (pinit_PInv n_jobs n)) as (HI & _). apply (prun_PInv l2 _ HI).
+  rewrite E. destruct (prun_PInv l1 _ (pinit_PInv n_jobs n sized)) as (HI & _). apply (prun_PInv l2 _ HI).
 Qed.
 
-Theorem bar_bounded n_jobs n l :
-  let s := prun (pinit n_jobs n) l in shown s <= pexec s /\ pexec s <= n /\ total s = n.
+Theorem bar_bounded n_jobs n sized l :
+  let s := prun (pinit n_jobs n sized) l in
+  shown s <= pexec s /\ pexec s <= n /\ total s = n /\ (forall t, tshown s = Some t -> t = n /\ shown s <= t).
 Proof.
-  intros s. destruct (prun_PInv l _ (pinit_PInv n_jobs n)) as ([Hs Ht Hsh Hl] & _ & Htot). fold s in Hs, Ht, Hsh, Htot.
-  cbn in Htot. repeat split; lia.
+  intros s. destruct (prun_PInv l _ (pinit_PInv n_jobs n sized)) as ([Hs Ht Hsh Hl Hts Hu Hfull] & _ & Htot & _).
+  fold s in Hs, Ht, Hsh, Htot, Hts. cbn in Htot. repeat split; try lia.
+  - rewrite (Hts _ H). exact Htot.
+  - rewrite (Hts _ H). lia.
 Qed.
 
-(* ... and ends at the total: once every worker has flushed (forced update at the poison pill or at
-   the end of its lifespan: workers_flush_before_leaving) and all n items were processed, the next
-   handler round shows exactly n *)
-Theorem bar_ends_at_total n_jobs n l :
-  let s := prun (pinit n_jobs n) l in
-  pexec s = n -> Forall (fun x => x = 0) (loc s) ->
-  forall s', pstep s PHandler = Some s' -> shown s' = n /\ shown s' = total s'.
+(* ... and ends at the total, WITH the completion signal: once all n > 0 items were processed, every worker has flushed
+   (forced update at the poison pill or at the end of its lifespan) and the total is known or has been announced --
+   in whichever order these happened -- the next handler round shows exactly n of n and completion is signalled:
+   nobody waits for the bar forever (sized and unsized inputs) *)
+Theorem bar_ends_at_total n_jobs n sized l :
+  let s := prun (pinit n_jobs n sized) l in
+  0 < n -> pexec s = n -> Forall (fun x => x = 0) (loc s) -> (tshown s = Some n \/ upd s = true) ->
+  forall s', pstep s PHandler = Some s' -> shown s' = n /\ tshown s' = Some n /\ complete s' = true.
 Proof.
-  intros s He Hl s' Hp. destruct (prun_PInv l _ (pinit_PInv n_jobs n)) as ([Hs Ht Hsh Hlen] & _ & Htot). fold s in Hs, Ht, Hsh, Htot.
+  intros s Hn He Hl Hk s' Hp. destruct (prun_PInv l _ (pinit_PInv n_jobs n sized)) as (HI & _ & Htot & _). fold s in HI, Htot.
+  destruct (pstep_PInv _ _ _ HI Hp) as (HI' & _ & _ & _).
+  destruct HI as [Hs Ht Hsh Hlen Hts Hu Hfull].
   assert (H0 : list_sum (loc s) = 0).
   { clear - Hl. induction (loc s) as [|a r IH]; [reflexivity|]. inversion Hl; subst. cbn. apply IH. assumption. }
-  cbn [pstep] in Hp. rewrite handler_spec in Hp. cbn in Htot.
-  destruct ((0 <? list_sum (arr s)) && (list_sum (arr s) =? shown s)) eqn:E; inversion Hp; subst s'; clear Hp.
-  - apply andb_true_iff in E. destruct E as [_ E]. apply Nat.eqb_eq in E. split; lia.
-  - cbn [shown total]. split; lia.
+  cbn in Htot.
+  assert (Hts2 : (if upd s then Some (total s) else tshown s) = Some n).
+  { destruct (upd s) eqn:Eu; [rewrite Htot; reflexivity|]. destruct Hk as [Hk|Hk]; [exact Hk|discriminate]. }
+  assert (Hshown : shown s' = n /\ tshown s' = Some n /\ upd s' = false).
+  { cbn [pstep] in Hp. rewrite handler_spec in Hp.
+    destruct ((0 <? list_sum (arr s)) && (list_sum (arr s) =? shown s) && negb (upd s)) eqn:E; inversion Hp; subst s'; pfields.
+    - apply andb_true_iff in E. destruct E as [E Eu]. apply andb_true_iff in E. destruct E as [_ E]. apply Nat.eqb_eq in E.
+      repeat split; [lia|exact Hts2].
+    - repeat split; [lia|exact Hts2]. }
+  destruct Hshown as (H1 & H2 & H3). repeat split; auto. apply (p_full _ HI' n H2 H1 H3 Hn).
 Qed.
 
 (* a forced update leaves nothing behind *)
